@@ -38,12 +38,12 @@ class Adapter(EE.EnvAdapter):
         return ("a", self.default_action)
 
 
-def core_alphabet(cfg_or_path, core=None):
+def core_alphabet(cfg_or_path, core=None, all_targets=None):
     core = core or CORE
-    return _core_alphabet(cfg_or_path, core)
+    return _core_alphabet(cfg_or_path, core, tuple(all_targets or ALL_TARGETS))
 
 
-def _core_alphabet(cfg_or_path, CORE):
+def _core_alphabet(cfg_or_path, CORE, ALL_TARGETS=ALL_TARGETS):
     if isinstance(cfg_or_path, str):
         cfg = HE.load_yaml(cfg_or_path) if cfg_or_path.endswith(".yaml") else None
     else:
@@ -89,7 +89,10 @@ def scenarios(tier):
                           ("node-send-local-command", "'lc'")])))
     S.append(("data_manipulation", HE.SHIPPED["data_manipulation"], "dev", dict(H=24 if tier == "thorough" else 6, k=1, reset_seed=None)))
     S.append(("uc7", HE.SHIPPED["uc7"], "dev", dict(H=12 if tier == "thorough" else 2, k=1, reset_seed=None)))
-    S.append(("uc7_tap003", HE.SHIPPED["uc7_tap003"], "dev", dict(H=12 if tier == "thorough" else 2, k=1, reset_seed=None)))
+    # (quick: the insider's first 24 steps - logins, remote commands, password changes - with every blue action at every step)
+    S.append(("uc7_tap003", HE.SHIPPED["uc7_tap003"], "dev", dict(
+        H=24 if tier == "thorough" else 18, k=1, reset_seed=None, core=tier != "thorough", core_names=TAP_INTERFERENCE,
+        all_targets=("node-shutdown", "router-acl-add-rule", "node-account-change-password"))))
     # episode schedules: the default script alternates one step and a reset, long enough to go through every episode of the
     # schedule more than twice (the scheduler loops back when the schedule runs out). lengths: mini 2, placeholders 4, uc7 variants 20
     for name, n_ep in (("sched_mini", 2), ("sched_placeholders", 4), ("sched_uc7_variants", 20)):
@@ -98,9 +101,12 @@ def scenarios(tier):
             continue
         S.append((name, HE.SHIPPED[name], "dev", dict(H=2 * (2 * n_ep + 2), k=1 if tier == "thorough" and n_ep < 20 else 0,
                                                      reset_seed=None, multi_reset=True)))
+    # one whole kill chain of the shipped threat actor after blue removed the database client from its host in the first step
+    S.append(("uc7-noclient", HE.SHIPPED["uc7"], "dev", dict(H=100, k=0, reset_seed=None,
+                                                            script_hints=[("node-application-remove", "database-client")])))
     if tier != "thorough":
-        # a power cycle of the threat actor's host at any step of the first 44: refused red actions whose answers the actor parses
-        S.append(("uc7-reset", HE.SHIPPED["uc7"], "dev", dict(H=44, k=1, reset_seed=None, core=True, core_names=("node-reset",))))
+        # a power cycle of the threat actor's host at any step of the first 32: refused red actions whose answers the actor parses
+        S.append(("uc7-reset", HE.SHIPPED["uc7"], "dev", dict(H=32, k=1, reset_seed=None, core=True, core_names=("node-reset",))))
     if tier == "thorough":
         # a whole threat-actor kill chain with one blue interference at any step (the attack's late stages run code that
         # nothing else reaches)
@@ -112,6 +118,8 @@ def scenarios(tier):
 def pick(cfg, hints, unique=False):
     """Action-map indices of the first entry matching each (action type, substring of its options) hint (a script may name the
     same entry twice; an alphabet wants each entry once: unique=True)."""
+    if isinstance(cfg, str):
+        cfg = HE.load_yaml(cfg)
     blue = [a for a in cfg["agents"] if a["type"] == "proxy-agent"][0]
     amap = blue["action_space"]["action_map"]
     out = []
@@ -126,7 +134,7 @@ def pick(cfg, hints, unique=False):
 def make_adapter(name, cfg, p, oracles):
     ad = Adapter("c01-%s-%s" % (name, "k%d" % p.get("k", 0) if "H" in p else "bfs"), cfg, oracles,
                  init_reset_seed=p.get("reset_seed", 3), alphabet=pick(cfg, p["hints"], unique=True) if p.get("hints") else None,
-                 dev_alphabet=core_alphabet(cfg, p.get("core_names")) if p.get("core") else None,
+                 dev_alphabet=core_alphabet(cfg, p.get("core_names"), p.get("all_targets")) if p.get("core") else None,
                  extra_params={"scenario_name": name, "p": {k: v for k, v in p.items()}})
     if p.get("script_hints"):
         # the default script opens sessions in its first slots and then idles past their time-out
@@ -157,6 +165,8 @@ def _cfg_for(name, p=None):
         name = name[:-5]
     if name.endswith("-reset"):
         name = name[:-6]
+    if name.endswith("-noclient"):
+        name = name[:-9]
     if name.endswith("-fs2"):
         name = name[:-4]
     for v in HE.GEN:
